@@ -1,6 +1,7 @@
 package props
 
 import (
+	"fmt"
 	"go/ast"
 	"go/token"
 	"go/types"
@@ -202,6 +203,9 @@ func conCloseNode(c *core.Ctx, f *core.Fn) func(ast.Node) bool {
 		}
 		closes := false
 		for _, st := range ifs.Body.List {
+			if !closes && core.NodeHas(st, func(x ast.Node) bool { _, isRet := x.(*ast.ReturnStmt); return isRet }) {
+				break // a return inside the guarded block ahead of the Close: the block is no longer "closes if there is a connection"
+			}
 			if es, ok := st.(*ast.ExprStmt); ok {
 				if cl, ok := es.X.(*ast.CallExpr); ok {
 					if se, ok := cl.Fun.(*ast.SelectorExpr); ok && se.Sel.Name == "Close" && core.FieldOf(f.Pkg, se.X) == conF {
@@ -259,3 +263,63 @@ func returnsReachableWithout(p *core.Prog, f *core.Fn, gate func(ast.Node) bool,
 }
 
 var _ = token.NoPos
+
+// conKnownNil: the fact establishes FSM.con == nil.
+func conKnownNil(c *core.Ctx, f *core.Fn, ft core.Fact) bool {
+	conF := c.P.Field(srv, "FSM", "con")
+	be, ok := ft.Expr.(*ast.BinaryExpr)
+	if !ok || conF == nil || !core.IsNilIdent(f.Pkg, be.Y) || core.FieldOf(f.Pkg, be.X) != conF {
+		return false
+	}
+	return be.Op == token.EQL && ft.Truth || be.Op == token.NEQ && !ft.Truth
+}
+
+// openRejectClosesConnection (C22): the functions that answer an OPEN with an OPEN Message Error NOTIFICATION close the
+// connection on every path on which there is one.
+func openRejectClosesConnection(c *core.Ctx) {
+	const rule = "open-reject-closes-connection"
+	p := c.P
+	sn := p.Func(srv + ".(*FSM).sendNotification")
+	if sn == nil {
+		c.Check(false, rule, "sendNotification", 0, "anchor not found")
+		return
+	}
+	n := 0
+	for _, f := range p.FuncsIn(srv) {
+		if f.Decl.Body == nil || isTestFn(p, f) {
+			continue
+		}
+		emits := false
+		for _, call := range core.Calls(f.Pkg, f.Decl.Body, func(o *types.Func) bool { return o == sn.Obj }) {
+			if len(call.Args) >= 1 {
+				if co := core.ConstObjOf(f.Pkg, call.Args[0]); co != nil && co.Name() == "OpenMessageError" {
+					emits = true
+				}
+			}
+		}
+		if !emits {
+			continue
+		}
+		n++
+		c.Analysed(f)
+		rets, implicit := core.ExitsWithout(p.CFG(f), conCloseNode(c, f))
+		bad := 0
+		for _, r := range rets {
+			ex := false
+			for _, ft := range core.FactsAt(f, r) {
+				if conKnownNil(c, f, ft) {
+					ex = true
+				}
+			}
+			if !ex {
+				bad++
+				c.Check(false, rule, fmt.Sprintf("%s return #%d", f.Name(), retIndex(f, r)), r.Pos(),
+					"an unacceptable OPEN is answered with the OPEN Message Error but on this path the function returns without closing the connection: the session goes to Idle while the peer keeps the half-open connection")
+			}
+		}
+		if bad == 0 && !implicit {
+			c.Check(true, rule, f.Name(), f.Decl.Pos(), "")
+		}
+	}
+	c.Check(n >= 1, rule, "OPEN Message Error emitters", 0, "no function sends an OPEN Message Error NOTIFICATION")
+}
